@@ -312,7 +312,8 @@ theorem lenient_spec {l : Int} (hl : Interior l) (m : Mapping) (hm : mapLocal ge
       rw [hv'] at hbl
       zconsts; omega
 
-/-- the full statement of start-of-day: the earliest instant whose local date is the given date -/
+/-- the full statement of start-of-day: the earliest instant whose local date is the given date
+    (proved: `startOfDay_spec` in PyodaProofs.C05StartOfDay) -/
 def startOfDayStatement (g : Int → ZI) : Prop :=
   ∀ l, Interior l → l % NPD = 0 → ∀ r, atStartOfDay get l = .ok r →
     (dayOf (r + (g r).wall * NPS) = dayOf l ∧
@@ -321,7 +322,8 @@ def startOfDayStatement (g : Int → ZI) : Prop :=
 /-- start of day, proved part: with a mapping for local midnight the result is its earliest instant; with
     none, it is the start of the interval after the gap provided that instant still falls on the date (else
     SkippedTimeError), and every instant of the interval before the gap renders before local midnight.
-    Missing w.r.t. `startOfDayStatement`: minimality against instants more than one interval away. -/
+    Minimality against instants more than one interval away — the rest of `startOfDayStatement` — is added by
+    `startOfDay_spec` (PyodaProofs.C05StartOfDay). -/
 theorem startOfDay_spec_partial {l : Int} (hl : Interior l) (m : Mapping) (hm : mapLocal get l = .ok m) :
     (m.count ≠ 0 → atStartOfDay get l = .ok (l - m.early.wall * NPS)) ∧
     (m.count = 0 →
